@@ -13,9 +13,9 @@ variable {Val : Type} (sem : String → List Val → Option Val)
 onnxruntime-absent run denotes the same value under every binding environment, and every value it
 reports is the one the onnxruntime-present run reports. -/
 theorem equiv (env : String → Option Val) (S : String → Bool) (p : List (PStep Val))
-    (henv : EnvOK env p) (h : Heap Val) (hrun : runProg sem true S p [] = some h) :
+    (henv : EnvOK env p) (hN : ShortcutsNeutral sem env p) (h : Heap Val) (hrun : runProg sem true S p [] = some h) :
     ∃ h', runProg sem false S p [] = some h' ∧ Rel sem env h h' :=
-  refinement_general sem env true false (by intro h; cases h) S S (fun _ h => h) p henv h hrun
+  refinement_general sem env true false (by intro h; cases h) S S (fun _ h => h) p henv hN h hrun
 
 /-- Cells that existed before a step and are not its `set` target. -/
 def Derived : Step Val → Bool
@@ -26,7 +26,7 @@ def Derived : Step Val → Bool
 theorem derived_no_value (h h' : Heap Val) (op : String) (args : List Nat)
     (hstep : step sem false h (.prim op args) = some h') :
     ∃ vars, h' = h ++ [⟨.node op vars, none⟩] := by
-  simp only [step] at hstep
+  simp only [step, resolve, stepBase] at hstep
   cases hv : varsOf h args with
   | none => simp [hv] at hstep
   | some vars =>
@@ -43,7 +43,9 @@ theorem no_kernel_needed (sem' : String → List Val → Option Val) :
   | cons s ss ih =>
     intro h
     have hs : step sem false h s = step sem' false h s := by
-      cases s <;> simp [step]
+      simp only [step]
+      generalize resolve h s = r
+      cases r <;> simp [stepBase]
     simp only [run, hs]
     cases step sem' false h s with
     | none => rfl
